@@ -1089,6 +1089,9 @@ def rule_absolute_index_access(ctx, rep):
         "load; gtxns": (["load 0", "gtxns Amount", "pop"], False), "unknown; gtxns": (["gtxns Amount", "pop"], False),
         "GroupIndex; int 0; gtxnsas": (["txn GroupIndex", "int 0", "gtxnsas ApplicationArgs", "pop"], False),
         "txn only": (["txn Amount", "pop"], False), "txna": (["txna ApplicationArgs 0", "pop"], False), "itxn": (["itxn Amount", "pop"], False),
+        # reads of the inner group an application has submitted are not reads of a member of the analysed group
+        "gitxn 0 (inner group)": (["gitxn 0 Amount", "pop"], False), "gitxna 1 (inner group)": (["gitxna 1 ApplicationArgs 0", "pop"], False),
+        "gitxnas 0 (inner group)": (["int 0", "gitxnas 0 ApplicationArgs", "pop"], False), "itxna": (["itxna ApplicationArgs 0", "pop"], False),
         "relative then absolute": (["txn GroupIndex", "gtxns Amount", "pop", "gtxn 0 Amount", "pop"], True),
         "unknown then constant": (["gtxns Amount", "pop", "int 2", "gtxns Amount", "pop"], True),
     }
